@@ -249,7 +249,9 @@ impl Check for C19 {
             2 => proptest::collection::vec(wire_target(4), 1..=6),
         ]
         .prop_map(|targets| Case::Discover { targets });
-        let pick = prop_oneof![5 => any::<u16>().prop_map(Pick::Index), 1 => Just(Pick::None), 2 => wire_target(0).prop_map(Pick::Other), 2 => wire_target(40).prop_map(Pick::Other)];
+        let pick = prop_oneof![5 => any::<u16>().prop_map(Pick::Index), 1 => Just(Pick::None), 2 => wire_target(0).prop_map(Pick::Other), 2 => wire_target(40).prop_map(Pick::Other),
+            // a target message that is present but entirely empty (no identifier, no address, no metadata): malformed, not "none"
+            1 => Just(Pick::Other(WireTarget { identifier: String::new(), address: None, meta: Default::default() }))];
         let select = (gens::targets(6), gens::name(), gens::uuid(), gens::client_addr(), gens::host(), gens::port(), 0i32..=100_000, pick)
             .prop_map(|(candidates, name, uuid, client, host, port, protocol, pick)| Case::Select { candidates, name, uuid, client, host, port, protocol, pick });
         prop_oneof![discover, select].boxed()
